@@ -29,6 +29,7 @@ EXTENDS Naturals, Sequences, FiniteSets, TLC
 CONSTANTS Procs,            \* ping callers (one call each)
           NoProc,
           IdSpace,          \* echo identifiers are 0..IdSpace-1 (uint16 in the code)
+          FirstId,          \* value of the process-wide counter when the run starts (1 in a fresh process)
           LeakOnSendError   \* TRUE: the code as it is; FALSE: repaired
 
 ReplyKinds == {"echoReply4", "echoReply6"}
@@ -59,7 +60,7 @@ TableIds   == {e[1] : e \in table}
 
 RefInit == [st |-> "idle", fam |-> "v4", id |-> NoId, any |-> FALSE, before |-> FALSE, res |-> "none"]
 
-Init == /\ table = {} /\ nextID = 1
+Init == /\ table = {} /\ nextID = FirstId
         /\ pc = [p \in Procs |-> "idle"] /\ id = [p \in Procs |-> NoId]
         /\ fam = [p \in Procs |-> "v4"]
         /\ closed = [p \in Procs |-> FALSE] /\ recv = [p \in Procs |-> FALSE]
